@@ -12,7 +12,7 @@ Control
   symbolic `if`: run both arms on deep copies, merge by ite if shapes/outcomes agree, else fork
   forks are resolved by re-execution with a decision log (DFS over feasible alternatives)
 """
-import ast, copy, inspect, textwrap, itertools, time, types
+import ast, copy, inspect, os, textwrap, itertools, time, types
 import z3
 
 U = z3.DeclareSort("U")
@@ -122,7 +122,7 @@ class Infeasible(Exception): pass
 
 
 class Engine:
-    def __init__(self):
+    def __init__(self, use_rank=False):
         self.solver = z3.Solver()
         self.const_atoms = {}
         self.hfuns = {}
@@ -138,6 +138,9 @@ class Engine:
         self.unwind = 64
         self.max_depth = 60
         self.model = None
+        # rank axioms (no hash inside its own pre-image) are needed only where the interpreted code walks node structure
+        # without consuming a key (get_trie_nodes, witnesses); they cost z3 a factor of ~3, so they are opt-in per obligation
+        self.use_rank = use_rank
         self.keccak(b"")          # registers keccak(b'') == BLANK_HASH: every other pre-image shape then hashes to something else (shape tags)
 
     # ---- symbolic inputs ---------------------------------------------------------------
@@ -274,8 +277,9 @@ class Engine:
         self.solver.add(self.lenf(r) == 32)
         # well-foundedness: a hash never occurs inside its own pre-image (directly or transitively); without this
         # EUF admits cyclic "tries" (H(path, c) == c), on which structural walks do not terminate
-        for a in args:
-            self.solver.add(self.rank(r) > self.rank(a))
+        if self.use_rank:
+            for a in args:
+                self.solver.add(self.rank(r) > self.rank(a))
         self.model = None          # new axioms: the cached guiding model may not satisfy them
         for i, a in enumerate(args):
             self.solver.add(inv[i](r) == a)
